@@ -351,8 +351,36 @@ func implDepthSeq(L, k int, how string) string {
 		return otto.UndefinedValue()
 	})
 	over := `try { deep() } catch (e) {}`
-	if how == "host" {
+	switch how {
+	case "host":
 		over = `try { swallow(deep) } catch (e) {}`
+	// exceptions (not overflows) leaving through every kind of scope-entering site, caught in the SAME
+	// activation that probes afterwards: each site has to give its level back on the way out (seed P02: a
+	// direct eval whose code throws)
+	case "evalthrow":
+		over = `try { eval("null.x") } catch (e) {}`
+	case "evalnested":
+		over = `try { eval("eval('throw 1')") } catch (e) {}`
+	case "evalsyntax":
+		over = `try { eval("(") } catch (e) {}`
+	case "ctorthrow":
+		over = `try { new (function(){ throw 1 })() } catch (e) {}`
+	case "getterthrow":
+		over = `try { ({get p(){ throw 1 }}).p } catch (e) {}`
+	case "callbackthrow":
+		over = `try { [1].forEach(function(){ throw 1 }) } catch (e) {}`
+	case "applythrow":
+		over = `try { (function(){ throw 1 }).apply(null, []) } catch (e) {}`
+	case "convthrow":
+		over = `try { "" + {toString: function(){ throw 1 }} } catch (e) {}`
+	case "boundthrow":
+		over = `try { (function(){ throw 1 }).bind(null)() } catch (e) {}`
+	case "functhrow":
+		over = `try { Function("throw 1")() } catch (e) {}`
+	case "indirectevalthrow":
+		over = `try { (0, eval)("null.x") } catch (e) {}`
+	case "finallythrow":
+		over = `try { try { eval("throw 1") } finally { eval("0") } } catch (e) {}`
 	}
 	v, err := vm.Run(`var out = []; function deep(){ deep() }
 function probe(n){ try { return probe(n + 1) } catch (e) { return n } }
@@ -811,6 +839,11 @@ func genC18(c *h.Ctx) {
 			}
 			c.Add(fmt.Sprintf("depthseq %d %d script", L, k), "depthseq:caught-by-script")
 			c.Add(fmt.Sprintf("depthseq %d %d host", L, k), "depthseq:swallowed-by-host")
+			if k <= L+2 && (L <= 12 || c.Thorough()) {
+				for _, how := range []string{"evalthrow", "evalnested", "evalsyntax", "ctorthrow", "getterthrow", "callbackthrow", "applythrow", "convthrow", "boundthrow", "functhrow", "indirectevalthrow", "finallythrow"} {
+					c.Add(fmt.Sprintf("depthseq %d %d %s", L, k, how), "depthseq:exception-through-"+how)
+				}
+			}
 		}
 	}
 	// labelled loops of every kind with the labelled continue/break taken from every position: the
